@@ -296,3 +296,8 @@ Definition kv_corr_C19 := kv_corr_proj mask_C11 (fun o => match o with SQuery _ 
 
 Definition kv_chk_C12 (c : scase * list ostep) : bool := chk_C12_kv c.
 Definition kv_corr_C12 := kv_corr_proj mask_C11 (fun o => match o with SView _ _ _ _ | SPutDDoc _ _ _ | SDelDDoc _ _ => true | _ => false end).
+
+Definition kv_chk_C04 (c : scase * list ostep) : bool := chk_C04_kv c.
+(*                               resp  body  cas   exp   xattr rev   json  del   live  order *)
+Definition mask_C04 := mkMask    false false true  false false false false false true  false.
+Definition kv_corr_C04 := kv_corr_proj mask_C04 (fun o => negb (is_withmeta_step o)).
